@@ -293,6 +293,26 @@ def run(ctx: Ctx) -> None:
            msg=f"the include rule admits {sorted(admitted or [])!r} between '#' and 'include', the handler only removes {sorted(removed or [])!r} there: '#\\tinclude <x.h>' is split at the tab and the file is reported as 'include <x.h>'",
            node=pi, mod=mod, nontrivial=False)
 
+    # The operand is everything after the directive name: the text is cut ONCE, at the first run of blanks, and the second
+    # piece is the name.  A split without a limit cuts a file name that contains blanks ("my header.h") into words and
+    # reports the first one.
+    splits = [c for c in walk_local(pi) if isinstance(c, ast.Call) and isinstance(c.func, ast.Attribute) and c.func.attr in ("split", "partition")]
+    one_cut = False
+    for c in splits:
+        if c.func.attr == "partition":
+            one_cut = True
+        else:
+            recv_is_re = "_re" in norm(c.func.value) or "re." in norm(c.func.value)
+            lim = (c.args[1] if len(c.args) > 1 else None) if recv_is_re else (c.args[1] if len(c.args) > 1 else None)
+            for k_ in c.keywords:
+                if k_.arg == "maxsplit":
+                    lim = k_.value
+            if isinstance(lim, ast.Constant) and lim.value == 1:
+                one_cut = True
+    if splits:
+        ctx.ob("R9.4", "parser:CxxParser._process_include_directive|the operand is cut off once, at the first blank", one_cut,
+               msg="the directive text is split at every run of blanks: a file name that contains a blank is reported up to that blank only", node=splits[0], mod=mod, nontrivial=False)
+
     # ---------------------------------------------------------------- R9.5
     ctx.rule("R9.5", "carriage returns: input is CRLF-normalised before lexing, or no delivered token can end in / swallow a CR", minimum=1)
     li = lex.func("LexerTokenStream.__init__")
